@@ -4835,27 +4835,29 @@ class CubicBezier(Curve):
         """
         local_extremizers = [0, 1]
         a = [c[v] for c in self]
-        denom = a[0] - 3 * a[1] + 3 * a[2] - a[3]
-        if abs(denom) >= 1e-8:
-            delta = (
-                a[1] * a[1] - (a[0] + a[1]) * a[2] + a[2] * a[2] + (a[0] - a[1]) * a[3]
-            )
+        # The derivative is proportional to qa * t * t + qb * t + qc. It is formed from the differences of
+        # the coefficients, so that a curve far from the origin is not subject to cancellation.
+        d0 = a[1] - a[0]
+        d1 = a[2] - a[1]
+        d2 = a[3] - a[2]
+        qa = d0 - 2 * d1 + d2
+        qb = 2 * (d1 - d0)
+        qc = d0
+        roots = []
+        if qa == 0:
+            if qb != 0:
+                roots.append(-qc / qb)
+        else:
+            delta = qb * qb - 4 * qa * qc
             if delta >= 0:  # otherwise no local extrema
                 sqdelta = sqrt(delta)
-                tau = a[0] - 2 * a[1] + a[2]
-                r1 = (tau + sqdelta) / denom
-                r2 = (tau - sqdelta) / denom
-                if 0 < r1 < 1:
-                    local_extremizers.append(r1)
-                if 0 < r2 < 1:
-                    local_extremizers.append(r2)
-        else:
-            c = a[1] - a[0]
-            b = 2 * (a[0] - 2 * a[1] + a[2])
-            if b != 0:
-                r0 = -c / b
-                if 0 < r0 < 1:
-                    local_extremizers.append(r0)
+                q = -(qb + sqdelta) / 2.0 if qb >= 0 else -(qb - sqdelta) / 2.0
+                roots.append(q / qa)
+                if q != 0:
+                    roots.append(qc / q)
+        for r in roots:
+            if 0 < r < 1:
+                local_extremizers.append(r)
         local_extrema = [self.point(t)[v] for t in local_extremizers]
         return min(local_extrema), max(local_extrema)
 
